@@ -35,6 +35,20 @@ def intern (refs : List Ref) (r : Ref) : Nat × List Ref :=
   | some i => (i, refs)
   | none => (refs.length, refs ++ [r])
 
+/-- One compilation: `to_index` called for the references of the MIR's elements, in the order the
+compiler reaches them, starting from the table `refs` (`start_compilation` makes that the empty
+table).  Returns the indices written into the elements and the final table (`source_refs`). -/
+def internAll (refs : List Ref) : List Ref → List Nat × List Ref
+  | [] => ([], refs)
+  | r :: rs =>
+    let p := intern refs r
+    let q := internAll p.2 rs
+    (p.1 :: q.1, q.2)
+
+/-- `get_sources()`: the files named by the table, each with its text (`texts` is `USED_SOURCES`). -/
+def sourcesOf (texts : List (String × String)) (table : List Ref) : List (String × String) :=
+  texts.filter fun ft => table.any fun r => r.file == ft.1
+
 /-- A stack frame as `back_frame` sees it. -/
 structure Frame where
   file : String
